@@ -446,6 +446,20 @@ class SecopClient(ProxyClient):
             if parked:
                 # store to requeue after the next reply was received
                 self.pending.put(entry)
+                if key not in self.active_requests:
+                    # the reply was handled meanwhile, maybe before this entry was parked:
+                    # the rx thread found nothing to requeue then, so it is done here
+                    try:
+                        while True:
+                            parked_entry = self.pending.get(False)
+                            try:
+                                self.txq.put(parked_entry, False)
+                            except queue.Full:
+                                # many requests queued: the next reply will requeue the parked ones
+                                self.pending.put(parked_entry)
+                                break
+                    except queue.Empty:
+                        pass
             else:
                 self.active_requests[key] = entry
                 try:
@@ -547,10 +561,14 @@ class SecopClient(ProxyClient):
                     continue
                 entry[2] = action, ident, data
                 entry[1].set()  # trigger event
-                while not self.pending.empty():
-                    # let the TX thread sort out which entry to treat
-                    # this may have bad performance, but happens rarely
-                    self.txq.put(self.pending.get())
+                try:
+                    while True:
+                        # let the TX thread sort out which entry to treat
+                        # this may have bad performance, but happens rarely
+                        # (no blocking get: the TX thread might take entries out as well)
+                        self.txq.put(self.pending.get(False))
+                except queue.Empty:
+                    pass
         except ConnectionClosed:
             pass
         except Exception as e:
